@@ -79,6 +79,10 @@ def lake_build(timeout=3000):
         res = (False, msg)
         _build_cache['build'] = res
         return res
+    # the driver (model + specification, no proofs) first: it must exist even when a proof breaks
+    rc, out = run(['lake', 'build', 'bbdrv'], cwd=LEAN_DIR, timeout=timeout)
+    if rc != 0:
+        raise RuntimeError('the model/driver does not build:\n' + out[-3000:])
     rc, out = run(['lake', 'build'], cwd=LEAN_DIR, timeout=timeout)
     res = (rc == 0, out)
     _build_cache['build'] = res
